@@ -83,7 +83,7 @@ fn mutate(rng: &mut Rng, spec: &AppSpec, qid: &str) -> (Value, String, Option<bo
             _ => json!(1e300),
         }
     };
-    let n_classes = 25;
+    let n_classes = 26;
     let class = rng.below(n_classes);
     let (label, must): (String, Option<bool>) = match class {
         0 => {
@@ -222,7 +222,16 @@ fn mutate(rng: &mut Rng, spec: &AppSpec, qid: &str) -> (Value, String, Option<bo
             ("starting-charge-absurd".into(), if !in_range && spec.energy.as_ref().map(|e| e.vehicle != "ice").unwrap_or(false) { Some(true) } else { None })
         }
         21 => {
-            q = match rng.below(7) {
+            // long texts mixing one-, two-, three- and four-byte characters (random lengths, so that any byte offset an
+            // implementation may cut at falls inside a character sooner or later)
+            let long_text = |rng: &mut Rng| -> String {
+                let n = rng.urange(200, 1500);
+                (0..n).map(|_| *rng.pick(&['a', 'Z', ' ', '\u{e9}', '\u{3b1}', '\u{6f22}', '\u{1f697}', '"', '\\'])).collect()
+            };
+            q = match rng.below(10) {
+                7 => json!(long_text(rng)),
+                8 => Value::Array((0..rng.urange(2, 12)).map(|i| json!({"qid": format!("{qid}n{i}"), "name": long_text(rng), "origin_vertex": 0, "destination_vertex": 1})).collect()),
+                9 => json!([[long_text(rng)], long_text(rng)]),
                 0 => json!(17),
                 1 => json!("a string"),
                 2 => json!(true),
@@ -240,6 +249,13 @@ fn mutate(rng: &mut Rng, spec: &AppSpec, qid: &str) -> (Value, String, Option<bo
         23 => {
             q["query_weight_estimate"] = any_json(rng);
             ("weight-estimate-any-type".into(), None)
+        }
+        24 => {
+            // a well-formed query that carries a long free-text field with multi-byte characters: served as usual
+            let n = rng.urange(200, 3000);
+            let text: String = (0..n).map(|_| *rng.pick(&['a', ' ', '\u{e9}', '\u{3b1}', '\u{6f22}', '\u{1f697}', '"', '\\', '\n'])).collect();
+            q["name"] = json!(text);
+            ("long-unicode-text-field".into(), None)
         }
         _ => {
             q["vehicle_rates"] = if rng.chance(0.5) { any_json(rng) } else { json!({"distance": {"type": "factor", "factor": -3.0}}) };
@@ -347,7 +363,20 @@ fn case(case_no: usize, rng: &mut Rng, rep: &mut Report, case_file: &std::path::
                 // a non-object query has no id: it takes one error response whose request is the query itself, an
                 // element of it, or the placeholder the pipeline uses when it reports the query inside the error text
                 let anonymous = !it.0.is_object() && answered[i] == 0 && r.get("error").is_some() && (r["request"] == it.0 || request_superset(&r["request"], &it.0) || r["request"].get("qid").is_none());
-                if same_qid || anonymous {
+                // a (nested) array of query objects offered as one element is flattened and each object answered on its own,
+                // successfully or not: any of those responses shows that the element was served
+                fn leaves<'a>(v: &'a Value, out: &mut Vec<&'a Value>) {
+                    match v {
+                        Value::Array(a) => a.iter().for_each(|x| leaves(x, out)),
+                        other => out.push(other),
+                    }
+                }
+                let element_answer = it.0.is_array() && {
+                    let mut l = vec![];
+                    leaves(&it.0, &mut l);
+                    l.iter().any(|leaf| leaf.is_object() && leaf.get("qid").is_some() && leaf.get("qid") == r["request"].get("qid") && request_superset(&r["request"], leaf))
+                };
+                if same_qid || anonymous || element_answer {
                     answered[i] += 1;
                     if it.0.is_object() && !request_superset(&r["request"], &it.0) && r["request"].get("qid") == it.0.get("qid") {
                         // plugins may add fields; a submitted field must not change (grid options and the weight estimate aside)
